@@ -373,8 +373,10 @@ theorem expHead_notPfx {B B' : Nat} {c : Char} {t : List Char} (h : ExpHead B (c
   · cases h
   · injection h with h _
     subst h
-    unfold IsPfx
-    rcases hc with ⟨hc | hc, _⟩ | hc | hc <;> subst hc <;> decide
+    intro hp
+    have hd : digitVal c = 11 ∨ digitVal c = 24 ∨ digitVal c = 33 := by
+      rcases hp with ⟨h | h, _⟩ | ⟨h | h, _⟩ | ⟨h | h, _⟩ <;> subst h <;> decide
+    rcases hc with ⟨hc | hc, _⟩ | hc | hc <;> subst hc <;> revert hd <;> decide
 
 theorem isPfx_le {p : Char} {B : Nat} (h : IsPfx p B) : B ≤ 16 ∧ 2 ≤ B := by
   rcases h with ⟨_, e⟩ | ⟨_, e⟩ | ⟨_, e⟩ <;> omega
@@ -408,11 +410,11 @@ theorem natScan_of_ratMant (mant rest : List Char) (B M : Nat) (c : Int) (h : Ra
     obtain ⟨px, hpx, e⟩ := natScan_true_pre p B (t ++ rest) hp
     rw [List.cons_append, List.cons_append, e]
     exact key B px .digit t (isPfx_le hp).1 hpx hr hm hn
-  | dec hnp hm hn =>
+  | dec _ hnp hm hn =>
     have hnp' : ∀ p t B, mant ++ rest = '0' :: p :: t → ¬ IsPfx p B := by
       intro p t B e
       cases mant with
-      | nil => exact absurd hn (by decide)
+      | nil => exact absurd hn (by decide : ¬ 0 < ndig [])
       | cons a m' =>
         cases m' with
         | nil =>
@@ -429,13 +431,16 @@ theorem natScan_of_ratMant (mant rest : List Char) (B M : Nat) (c : Int) (h : Ra
     rw [natScan_true_dec (mant ++ rest) hnp']
     exact key 10 .none .other mant (by omega) (by decide) hr hm hn
 
-/-- scanner ⇒ grammar for the mantissa -/
-theorem ratMant_of_natScan (r : List Char) (he : (natScan true r).err = false) :
+/-- scanner ⇒ grammar for the mantissa (for a text whose unread rest does not start with a radix point — any other
+    rest is refused by the exponent scanner anyway) -/
+theorem ratMant_of_natScan (r : List Char) (he : (natScan true r).err = false)
+    (hnd : ∀ t, (natScan true r).rest ≠ '.' :: t) :
     ∃ mant, r = mant ++ (natScan true r).rest ∧
       RatMant mant (natScan true r).base (natScan true r).val (natScan true r).count ∧
       ((natScan true r).rest = [] ∨
         ∃ c t, (natScan true r).rest = c :: t ∧ c ≠ '_' ∧ digitVal c ≥ (natScan true r).base) := by
   have key : ∀ (B : Nat) (px : Pfx) (pv : Prev) (body : List Char), B ≤ 16 → px ≠ .zero →
+      (∀ t, (natScanPost B px (scanLoop B (st00 pv) body)).rest ≠ '.' :: t) →
       (natScanPost B px (scanLoop B (st00 pv) body)).err = false →
       ∃ mant, body = mant ++ (natScanPost B px (scanLoop B (st00 pv) body)).rest ∧
         Mant B pv true mant ∧ 0 < ndig mant ∧
@@ -444,19 +449,440 @@ theorem ratMant_of_natScan (r : List Char) (he : (natScan true r).err = false) :
         (natScanPost B px (scanLoop B (st00 pv) body)).count = mcount mant ∧
         ((natScanPost B px (scanLoop B (st00 pv) body)).rest = [] ∨
           ∃ c t, (natScanPost B px (scanLoop B (st00 pv) body)).rest = c :: t ∧ c ≠ '_' ∧ digitVal c ≥ B) := by
-    intro B px pv body hB hpx he
+    intro B px pv body hB hpx hnd he
     obtain ⟨f1, f2, f3⟩ := natScanPost_facts B px hpx (scanLoop B (st00 pv) body)
     obtain ⟨i1, i2, i3⟩ := f2 he
     obtain ⟨g1, g2, g3, _⟩ := f3 i3
     obtain ⟨mant, e1, e2, e3⟩ := mant_of_scanLoop B body (st00 pv) i1 i2
-    -- the stop character is not a radix point either when the text is accepted later; here we only need `Stops`
-    -- for the values, which we get by replaying the grammar ⇒ scanner lemma on the consumed part alone
-    have hstop : Stops B ([] : List Char) := Or.inl rfl
-    obtain ⟨a1, a2, a3, a4, a5, a6, a7⟩ :=
-      scanLoop_of_mant B (by omega) [] hstop pv true mant e2 (st00 pv) rfl rfl
-    rw [f1]
-    refine ⟨mant, e1, e2, ?_, g2, ?_, ?_, e3⟩
-    all_goals sorry
-  sorry
+    rw [f1] at hnd ⊢
+    have hstop : Stops B (scanLoop B (st00 pv) body).2 := by
+      rcases e3 with e | ⟨c, t, e, c1, c2⟩
+      · exact Or.inl e
+      · exact Or.inr ⟨c, t, e, c1, fun hc => hnd t (by rw [e, hc]), c2⟩
+    obtain ⟨_, a2, a3, _, _, a6, a7⟩ :=
+      scanLoop_of_mant B (by omega) _ hstop pv true mant e2 (st00 pv) rfl rfl
+    rw [← e1] at a2 a3 a6 a7
+    have a3' : (scanLoop B (st00 pv) body).1.count = ndig mant := by
+      rw [a3]; show 0 + ndig mant = _; omega
+    have hn : 0 < ndig mant := by rw [← a3']; omega
+    refine ⟨mant, e1, e2, hn, g2, by rw [g1, a2]; rfl, ?_, e3⟩
+    rw [g3]; exact mcount_of_loop mant _ _ a3' a6 a7
+  by_cases hp : ∃ p t B, r = '0' :: p :: t ∧ IsPfx p B
+  · obtain ⟨p, t, B, hr, hp⟩ := hp
+    subst hr
+    obtain ⟨px, hpx, e⟩ := natScan_true_pre p B t hp
+    rw [e] at he hnd ⊢
+    obtain ⟨mant, k1, k2, k3, k4, k5, k6, k7⟩ := key B px .digit t (isPfx_le hp).1 hpx hnd he
+    refine ⟨'0' :: p :: mant, by rw [List.cons_append, List.cons_append, ← k1], ?_, ?_⟩
+    · rw [k4, k5, k6]; exact RatMant.pre p B mant hp k2 k3
+    · rw [k4]; exact k7
+  · have hnp : ∀ p t B, r = '0' :: p :: t → ¬ IsPfx p B := fun p t B e h => hp ⟨p, t, B, e, h⟩
+    rw [natScan_true_dec r hnp] at he hnd ⊢
+    obtain ⟨mant, k1, k2, k3, k4, k5, k6, k7⟩ := key 10 .none .other r (by omega) (by decide) hnd he
+    refine ⟨mant, k1, ?_, ?_⟩
+    · rw [k4, k5, k6]
+      refine RatMant.dec mant ?_ k2 k3
+      intro p t B e
+      refine hnp p (t ++ (natScanPost 10 .none (scanLoop 10 (st00 .other) r)).rest) B ?_
+      have hr' := k1
+      rw [e] at hr'
+      exact hr'
+    · rw [k4]; exact k7
+
+/-! ## the exponent -/
+
+theorem digitVal_lt_ten (c : Char) : digitVal c < 10 ↔ (48 ≤ c.toNat ∧ c.toNat ≤ 57) := by
+  unfold digitVal
+  constructor
+  · intro h
+    split at h
+    · assumption
+    · split at h
+      · omega
+      · split at h <;> omega
+  · intro h; rw [if_pos h]; omega
+
+theorem digitVal_dec' (c : Char) (h : 48 ≤ c.toNat ∧ c.toNat ≤ 57) : c.toNat - 48 = digitVal c := by
+  unfold digitVal; rw [if_pos h]
+
+theorem expLoop_nil (st : ExpSt) : expLoop st [] = (st, []) := by
+  unfold expLoop; rfl
+
+theorem expLoop_digit (st : ExpSt) (c : Char) (t : List Char) (hc : digitVal c < 10) :
+    expLoop st (c :: t) = expLoop { st with val := st.val * 10 + digitVal c, prev := .digit, has := true } t := by
+  have h := (digitVal_lt_ten c).mp hc
+  rw [expLoop]
+  rw [if_pos h, digitVal_dec' c h]
+
+theorem expLoop_sep (st : ExpSt) (t : List Char) :
+    expLoop st ('_' :: t) = expLoop { st with invalSep := st.invalSep || st.prev != .digit, prev := .sep } t := by
+  rw [expLoop]
+  rw [if_neg (by decide), if_pos rfl]
+
+theorem expLoop_stop (st : ExpSt) (c : Char) (t : List Char) (h1 : ¬ digitVal c < 10) (h2 : c ≠ '_') :
+    expLoop st (c :: t) = (st, c :: t) := by
+  rw [expLoop]
+  rw [if_neg (fun x => h1 ((digitVal_lt_ten c).mpr x)), if_neg h2]
+
+/-- grammar ⇒ scanner for the exponent digits -/
+theorem expLoop_of_sep (p : Bool) (l : List Char) (h : SepDigits 10 p l) :
+    ∀ st : ExpSt, (p = true → st.prev = .digit) →
+      (expLoop st l).2 = [] ∧ (expLoop st l).1.val = valFrom 10 st.val l ∧ (expLoop st l).1.has = true ∧
+      (expLoop st l).1.prev = .digit ∧ (expLoop st l).1.invalSep = st.invalSep := by
+  induction h with
+  | last p c hc =>
+    intro st _
+    rw [expLoop_digit st c [] hc, expLoop_nil]
+    have : c ≠ '_' := digitVal_lt_ne hc (by omega) '_' dv_us
+    refine ⟨rfl, ?_, rfl, rfl, rfl⟩
+    simp [valFrom, this]
+  | digit p c t hc _ ih =>
+    intro st _
+    rw [expLoop_digit st c t hc]
+    obtain ⟨a1, a2, a3, a4, a5⟩ :=
+      ih { st with val := st.val * 10 + digitVal c, prev := .digit, has := true } (fun _ => rfl)
+    have : c ≠ '_' := digitVal_lt_ne hc (by omega) '_' dv_us
+    refine ⟨a1, ?_, a3, a4, a5⟩
+    rw [a2]; simp [valFrom, this]
+  | sep t _ ih =>
+    intro st hp
+    rw [expLoop_sep st t]
+    obtain ⟨a1, a2, a3, a4, a5⟩ :=
+      ih { st with invalSep := st.invalSep || st.prev != .digit, prev := .sep } (fun c => by cases c)
+    refine ⟨a1, ?_, a3, a4, ?_⟩
+    · rw [a2]; simp [valFrom]
+    · rw [a5]; simp [hp rfl]
+
+theorem expLoop_invalSep_mono (l : List Char) :
+    ∀ st : ExpSt, st.invalSep = true → (expLoop st l).1.invalSep = true := by
+  induction l with
+  | nil => intro st h; rw [expLoop_nil]; exact h
+  | cons c t ih =>
+    intro st h
+    rw [expLoop]
+    split
+    · exact ih _ h
+    · split
+      · exact ih _ (by simp [h])
+      · exact h
+
+/-- scanner ⇒ grammar for the exponent digits -/
+theorem sep_of_expLoop (l : List Char) :
+    ∀ st : ExpSt, (expLoop st l).2 = [] → (expLoop st l).1.invalSep = false → (expLoop st l).1.prev ≠ .sep →
+      l = [] ∨ SepDigits 10 (st.prev == .digit) l := by
+  induction l with
+  | nil => intro _ _ _ _; exact Or.inl rfl
+  | cons c t ih =>
+    intro st h1 h2 h3
+    right
+    by_cases c0 : digitVal c < 10
+    · rw [expLoop_digit st c t c0] at h1 h2 h3
+      rcases ih { st with val := st.val * 10 + digitVal c, prev := .digit, has := true } h1 h2 h3 with e | e
+      · subst e; exact SepDigits.last _ c c0
+      · exact SepDigits.digit _ c t c0 e
+    · by_cases c1 : c = '_'
+      · subst c1
+        rw [expLoop_sep st t] at h1 h2 h3
+        have hst : (st.invalSep || st.prev != .digit) = false := by
+          cases hx : (st.invalSep || st.prev != .digit)
+          · rfl
+          · have := expLoop_invalSep_mono t
+                { st with invalSep := st.invalSep || st.prev != .digit, prev := .sep } hx
+            rw [this] at h2; cases h2
+        have hp : st.prev = .digit := by
+          cases hq : st.prev <;> simp [hq] at hst ⊢
+        rcases ih { st with invalSep := st.invalSep || st.prev != .digit, prev := .sep } h1 h2 h3 with e | e
+        · subst e; rw [expLoop_nil] at h3; exact absurd rfl h3
+        · rw [hp]; exact SepDigits.sep t e
+      · rw [expLoop_stop st c t c0 c1] at h1; cases h1
+
+/-- optional sign of the exponent -/
+def expSign (t : List Char) : Bool × List Char :=
+  match t with
+  | c :: u => if c = '+' then (false, u) else if c = '-' then (true, u) else (false, t)
+  | [] => (false, t)
+
+def expPost (base : Nat) (neg : Bool) (r : ExpSt × List Char) : ExpScan :=
+  let st := r.1
+  let e : Int := if neg then -(st.val : Int) else st.val
+  let rangeErr := e < -(2^63) || e > 2^63 - 1
+  { exp := e, base := base, err := !st.has || rangeErr || st.invalSep || st.prev == .sep, rest := r.2 }
+
+def est0 : ExpSt := { val := 0, has := false, prev := .other, invalSep := false }
+
+theorem scanExpDigits_eq (base : Nat) (t : List Char) :
+    scanExpDigits base t = expPost base (expSign t).1 (expLoop est0 (expSign t).2) := rfl
+
+theorem expPost_facts (base : Nat) (neg : Bool) (r : ExpSt × List Char) :
+    (expPost base neg r).rest = r.2 ∧ (expPost base neg r).base = base ∧
+    (expPost base neg r).exp = (if neg then -(r.1.val : Int) else r.1.val) ∧
+    ((expPost base neg r).err = false ↔
+      r.1.has = true ∧ r.1.invalSep = false ∧ r.1.prev ≠ .sep ∧
+      -(2^63) ≤ (if neg then -(r.1.val : Int) else (r.1.val : Int)) ∧
+      (if neg then -(r.1.val : Int) else (r.1.val : Int)) ≤ 2^63 - 1) := by
+  refine ⟨rfl, rfl, rfl, ?_⟩
+  obtain ⟨⟨val, has, prev, inval⟩, rest⟩ := r
+  unfold expPost
+  simp only []
+  generalize (if neg then -(val : Int) else (val : Int)) = e
+  have k1 : (decide (e < -(2^63)) = false) ↔ -(2^63) ≤ e := by
+    simp only [decide_eq_false_iff_not]; omega
+  have k2 : (decide (e > 2^63 - 1) = false) ↔ e ≤ 2^63 - 1 := by
+    simp only [decide_eq_false_iff_not]; omega
+  rw [← k1, ← k2]
+  generalize decide (e < -(2^63)) = b1
+  generalize decide (e > 2^63 - 1) = b2
+  cases has <;> cases inval <;> cases prev <;> cases b1 <;> cases b2 <;> decide
+
+/-- exponent digits: an optional sign and decimal digits with single inner underscores; the value fits an `int64` -/
+def ExpDigits (t : List Char) (x : Int) : Prop :=
+  ∃ sg ds, t = sg ++ ds ∧ SepDigits 10 false ds ∧
+    (((sg = [] ∨ sg = ['+']) ∧ x = (digitsVal 10 ds : Int)) ∨ (sg = ['-'] ∧ x = -(digitsVal 10 ds : Int))) ∧
+    -(2^63) ≤ x ∧ x ≤ 2^63 - 1
+
+/-- exponent part: nothing (exponent 0), or `e`/`E` (base 10) or `p`/`P` (base 2) followed by the exponent digits -/
+def ExpPart (ex : List Char) (eb : Nat) (x : Int) : Prop :=
+  (ex = [] ∧ eb = 10 ∧ x = 0) ∨
+  ∃ c t, ex = c :: t ∧ (((c = 'e' ∨ c = 'E') ∧ eb = 10) ∨ ((c = 'p' ∨ c = 'P') ∧ eb = 2)) ∧ ExpDigits t x
+
+theorem expSign_cons (c : Char) (u : List Char) :
+    expSign (c :: u) = if c = '+' then (false, u) else if c = '-' then (true, u) else (false, c :: u) := rfl
+
+theorem scanExponent_cons (c : Char) (t : List Char) :
+    scanExponent (c :: t) =
+      if c = 'e' ∨ c = 'E' then scanExpDigits 10 t
+      else if c = 'p' ∨ c = 'P' then scanExpDigits 2 t
+      else { exp := 0, base := 10, err := false, rest := c :: t } := rfl
+
+theorem expSign_split (t : List Char) :
+    (t = (expSign t).2 ∧ (expSign t).1 = false) ∨ (t = '+' :: (expSign t).2 ∧ (expSign t).1 = false) ∨
+    (t = '-' :: (expSign t).2 ∧ (expSign t).1 = true) := by
+  cases t with
+  | nil => exact Or.inl ⟨rfl, rfl⟩
+  | cons c u =>
+    rw [expSign_cons]
+    by_cases c1 : c = '+'
+    · rw [if_pos c1]; exact Or.inr (Or.inl ⟨by rw [c1], rfl⟩)
+    · by_cases c2 : c = '-'
+      · rw [if_neg c1, if_pos c2]; exact Or.inr (Or.inr ⟨by rw [c2], rfl⟩)
+      · rw [if_neg c1, if_neg c2]; exact Or.inl ⟨rfl, rfl⟩
+
+theorem expDigits_fwd (t : List Char) (x : Int) (h : ExpDigits t x) (base : Nat) :
+    (scanExpDigits base t).err = false ∧ (scanExpDigits base t).rest = [] ∧ (scanExpDigits base t).base = base ∧
+    (scanExpDigits base t).exp = x := by
+  obtain ⟨sg, ds, ht, hs, hx, r1, r2⟩ := h
+  have hsign : expSign t = (decide (sg = ['-']), ds) := by
+    rcases hx with ⟨hsg | hsg, _⟩ | ⟨hsg, _⟩
+    · subst hsg
+      rw [List.nil_append] at ht; subst ht
+      cases hs with
+      | last _ c hc =>
+        have n1 : c ≠ '+' := digitVal_lt_ne hc (by omega) '+' dv_plus
+        have n2 : c ≠ '-' := digitVal_lt_ne hc (by omega) '-' dv_minus
+        simp [expSign, n1, n2]
+      | digit _ c u hc _ =>
+        have n1 : c ≠ '+' := digitVal_lt_ne hc (by omega) '+' dv_plus
+        have n2 : c ≠ '-' := digitVal_lt_ne hc (by omega) '-' dv_minus
+        simp [expSign, n1, n2]
+    · subst hsg; subst ht; rfl
+    · subst hsg; subst ht; rfl
+  obtain ⟨a1, a2, a3, a4, a5⟩ := expLoop_of_sep false ds hs est0 (fun c => by cases c)
+  obtain ⟨f1, f2, f3, f4⟩ := expPost_facts base (decide (sg = ['-'])) (expLoop est0 ds)
+  rw [scanExpDigits_eq, hsign]
+  have hval : (if decide (sg = ['-']) = true then -((expLoop est0 ds).1.val : Int) else ((expLoop est0 ds).1.val : Int)) = x := by
+    rw [a2]
+    rcases hx with ⟨hsg | hsg, hx⟩ | ⟨hsg, hx⟩
+    · subst hsg; rw [hx]; rfl
+    · subst hsg; rw [hx]; rfl
+    · subst hsg; rw [hx]; rfl
+  refine ⟨f4.mpr ⟨a3, a5, by rw [a4]; decide, ?_, ?_⟩, by rw [f1, a1], f2, by rw [f3, hval]⟩
+  · rw [hval]; exact r1
+  · rw [hval]; exact r2
+
+theorem expDigits_bwd (t : List Char) (base : Nat) (he : (scanExpDigits base t).err = false)
+    (hr : (scanExpDigits base t).rest = []) :
+    ExpDigits t (scanExpDigits base t).exp ∧ (scanExpDigits base t).base = base := by
+  rw [scanExpDigits_eq] at he hr ⊢
+  obtain ⟨f1, f2, f3, f4⟩ := expPost_facts base (expSign t).1 (expLoop est0 (expSign t).2)
+  obtain ⟨g1, g2, g3, g4, g5⟩ := f4.mp he
+  rw [f1] at hr
+  have hs : SepDigits 10 false (expSign t).2 := by
+    rcases sep_of_expLoop (expSign t).2 est0 hr g2 g3 with e | e
+    · rw [e, expLoop_nil] at g1; cases g1
+    · exact e
+  obtain ⟨_, a2, _, _, _⟩ := expLoop_of_sep false _ hs est0 (fun c => by cases c)
+  refine ⟨?_, f2⟩
+  rw [f3]
+  rw [a2] at g4 g5 ⊢
+  rcases expSign_split t with ⟨e1, e2⟩ | ⟨e1, e2⟩ | ⟨e1, e2⟩
+  · rw [e2] at g4 g5 ⊢
+    exact ⟨[], _, e1, hs, Or.inl ⟨Or.inl rfl, rfl⟩, g4, g5⟩
+  · rw [e2] at g4 g5 ⊢
+    exact ⟨['+'], _, e1, hs, Or.inl ⟨Or.inr rfl, rfl⟩, g4, g5⟩
+  · rw [e2] at g4 g5 ⊢
+    exact ⟨['-'], _, e1, hs, Or.inr ⟨rfl, rfl⟩, g4, g5⟩
+
+theorem expPart_fwd (l : List Char) (eb : Nat) (x : Int) (h : ExpPart l eb x) :
+    (scanExponent l).err = false ∧ (scanExponent l).rest = [] ∧ (scanExponent l).base = eb ∧
+    (scanExponent l).exp = x := by
+  rcases h with ⟨h1, h2, h3⟩ | ⟨c, t, h1, hc, hd⟩
+  · subst h1; subst h2; subst h3; exact ⟨rfl, rfl, rfl, rfl⟩
+  · subst h1
+    rcases hc with ⟨hc, hb⟩ | ⟨hc, hb⟩
+    · subst hb
+      have : scanExponent (c :: t) = scanExpDigits 10 t := by
+        rw [scanExponent_cons, if_pos hc]
+      rw [this]; exact expDigits_fwd t x hd 10
+    · subst hb
+      have n : ¬ (c = 'e' ∨ c = 'E') := by
+        rcases hc with hc | hc <;> subst hc <;> decide
+      have : scanExponent (c :: t) = scanExpDigits 2 t := by
+        rw [scanExponent_cons, if_neg n, if_pos hc]
+      rw [this]; exact expDigits_fwd t x hd 2
+
+theorem expPart_bwd (l : List Char) (he : (scanExponent l).err = false) (hr : (scanExponent l).rest = []) :
+    ExpPart l (scanExponent l).base (scanExponent l).exp := by
+  cases l with
+  | nil => exact Or.inl ⟨rfl, rfl, rfl⟩
+  | cons c t =>
+    right
+    by_cases c1 : c = 'e' ∨ c = 'E'
+    · have : scanExponent (c :: t) = scanExpDigits 10 t := by
+        rw [scanExponent_cons, if_pos c1]
+      rw [this] at he hr ⊢
+      obtain ⟨k1, k2⟩ := expDigits_bwd t 10 he hr
+      exact ⟨c, t, rfl, Or.inl ⟨c1, k2⟩, k1⟩
+    · by_cases c2 : c = 'p' ∨ c = 'P'
+      · have : scanExponent (c :: t) = scanExpDigits 2 t := by
+          rw [scanExponent_cons, if_neg c1, if_pos c2]
+        rw [this] at he hr ⊢
+        obtain ⟨k1, k2⟩ := expDigits_bwd t 2 he hr
+        exact ⟨c, t, rfl, Or.inr ⟨c2, k2⟩, k1⟩
+      · have : scanExponent (c :: t) = { exp := 0, base := 10, err := false, rest := c :: t } := by
+          rw [scanExponent_cons, if_neg c1, if_neg c2]
+        rw [this] at hr; cases hr
+
+/-! ## `big.Rat.SetString` -/
+
+/-- **mantissa/exponent literal** with the fraction `n/d` it denotes: an optional sign, a mantissa (`RatMant`), an
+    exponent part (`ExpPart`; an `e`/`E` exponent cannot follow a hexadecimal mantissa, where `e` is a digit), and the
+    arithmetic of `ratTail` on mantissa value, base, digit count, exponent base and exponent -/
+def IsRatLiteral (s : List Char) (n : Int) (d : Nat) : Prop :=
+  ∃ sg mant ex B M c eb x neg, s = sg ++ (mant ++ ex) ∧
+    (((sg = [] ∨ sg = ['+']) ∧ neg = false) ∨ (sg = ['-'] ∧ neg = true)) ∧
+    RatMant mant B M c ∧ ExpHead B ex ∧ ExpPart ex eb x ∧ ratTail neg M B c eb x = some (n, d)
+
+theorem ratMant_head {mant : List Char} {B M : Nat} {c : Int} (h : RatMant mant B M c) :
+    ∃ a t, mant = a :: t ∧ a ≠ '-' ∧ a ≠ '+' := by
+  cases h with
+  | pre p B t _ _ _ => exact ⟨'0', p :: t, rfl, by decide, by decide⟩
+  | dec _ _ hm hn =>
+    cases hm with
+    | nil _ _ _ => exact absurd hn (by decide : ¬ 0 < ndig [])
+    | digit _ _ a t ha _ =>
+      exact ⟨a, t, rfl, digitVal_lt_ne ha (by omega) '-' dv_minus, digitVal_lt_ne ha (by omega) '+' dv_plus⟩
+    | dot _ t _ _ => exact ⟨'.', t, rfl, by decide, by decide⟩
+
+theorem expPart_head {ex : List Char} {eb : Nat} {x : Int} (h : ExpPart ex eb x) :
+    ex = [] ∨ ∃ c t, ex = c :: t ∧ (c = 'e' ∨ c = 'E' ∨ c = 'p' ∨ c = 'P') := by
+  rcases h with ⟨h, _⟩ | ⟨c, t, h, hc, _⟩
+  · exact Or.inl h
+  · refine Or.inr ⟨c, t, h, ?_⟩
+    rcases hc with ⟨hc | hc, _⟩ | ⟨hc | hc, _⟩
+    · exact Or.inl hc
+    · exact Or.inr (Or.inl hc)
+    · exact Or.inr (Or.inr (Or.inl hc))
+    · exact Or.inr (Or.inr (Or.inr hc))
+
+/-- **`big.Rat.SetString` (texts without `/`) accepts exactly the mantissa/exponent literals, with that fraction** -/
+theorem bigRatSetString_iff (s : List Char) (n : Int) (d : Nat) :
+    bigRatSetString s = some (n, d) ↔ IsRatLiteral s n d := by
+  rw [bigRatSetString_eq]
+  constructor
+  · intro h
+    cases hs : scanSign s with
+    | none => rw [hs] at h; cases h
+    | some p =>
+      obtain ⟨neg, r⟩ := p
+      rw [hs] at h
+      simp only [] at h
+      by_cases h1 : (natScan true r).err = true
+      · rw [if_pos h1] at h; cases h
+      · rw [if_neg h1] at h
+        by_cases h2 : (scanExponent (natScan true r).rest).err = true
+        · rw [if_pos h2] at h; cases h
+        · rw [if_neg h2] at h
+          by_cases h3 : (!(scanExponent (natScan true r).rest).rest.isEmpty) = true
+          · rw [if_pos h3] at h; cases h
+          · rw [if_neg h3] at h
+            have e1 : (natScan true r).err = false := by
+              cases hx : (natScan true r).err
+              · rfl
+              · exact absurd hx h1
+            have e2 : (scanExponent (natScan true r).rest).err = false := by
+              cases hx : (scanExponent (natScan true r).rest).err
+              · rfl
+              · exact absurd hx h2
+            have e3 : (scanExponent (natScan true r).rest).rest = [] := by
+              cases hx : (scanExponent (natScan true r).rest).rest
+              · rfl
+              · rw [hx] at h3; exact absurd rfl h3
+            have hexp := expPart_bwd _ e2 e3
+            have hhead := expPart_head hexp
+            have hnd : ∀ t, (natScan true r).rest ≠ '.' :: t := by
+              intro t e
+              rcases hhead with hh | ⟨c, u, hh, hc⟩
+              · rw [e] at hh; cases hh
+              · rw [e] at hh; injection hh with hh _
+                subst hh
+                revert hc; decide
+            obtain ⟨mant, m1, m2, m3⟩ := ratMant_of_natScan r e1 hnd
+            have hEH : ExpHead (natScan true r).base (natScan true r).rest := by
+              rcases hhead with hh | ⟨c, u, hh, hc⟩
+              · exact Or.inl hh
+              · refine Or.inr ⟨c, u, hh, ?_⟩
+                rcases m3 with m3 | ⟨c', u', m3, _, m4⟩
+                · rw [m3] at hh; cases hh
+                · rw [hh] at m3; injection m3 with m3 _
+                  subst m3
+                  rcases hc with hc | hc | hc | hc
+                  · subst hc; exact Or.inl ⟨Or.inl rfl, m4⟩
+                  · subst hc; exact Or.inl ⟨Or.inr rfl, m4⟩
+                  · exact Or.inr (Or.inl hc)
+                  · exact Or.inr (Or.inr hc)
+            -- the sign
+            unfold scanSign at hs
+            split at hs
+            · cases hs
+            · rename_i c t
+              by_cases c1 : c = '-'
+              · rw [if_pos c1] at hs; injection hs with hs; injection hs with q1 q2
+                subst q1; subst q2; subst c1
+                exact ⟨['-'], mant, _, _, _, _, _, _, true, by rw [← m1]; rfl, Or.inr ⟨rfl, rfl⟩, m2, hEH, hexp, h⟩
+              · rw [if_neg c1] at hs
+                by_cases c2 : c = '+'
+                · rw [if_pos c2] at hs; injection hs with hs; injection hs with q1 q2
+                  subst q1; subst q2; subst c2
+                  exact ⟨['+'], mant, _, _, _, _, _, _, false, by rw [← m1]; rfl, Or.inl ⟨Or.inr rfl, rfl⟩, m2, hEH,
+                    hexp, h⟩
+                · rw [if_neg c2] at hs; injection hs with hs; injection hs with q1 q2
+                  subst q1; subst q2
+                  exact ⟨[], mant, _, _, _, _, _, _, false, by rw [← m1]; rfl, Or.inl ⟨Or.inl rfl, rfl⟩, m2, hEH,
+                    hexp, h⟩
+  · rintro ⟨sg, mant, ex, B, M, c, eb, x, neg, hs, hsg, hm, hEH, hexp, hrt⟩
+    obtain ⟨a, t, hat, n1, n2⟩ := ratMant_head hm
+    obtain ⟨k1, k2, k3, k4, k5⟩ := natScan_of_ratMant mant ex B M c hm hEH
+    obtain ⟨x1, x2, x3, x4⟩ := expPart_fwd ex eb x hexp
+    have hsign : scanSign s = some (neg, mant ++ ex) := by
+      rcases hsg with ⟨hsg | hsg, hn⟩ | ⟨hsg, hn⟩
+      · subst hsg; subst hn
+        rw [hs, hat]; simp only [List.nil_append, List.cons_append, scanSign]
+        rw [if_neg n1, if_neg n2]
+      · subst hsg; subst hn; rw [hs]; rfl
+      · subst hsg; subst hn; rw [hs]; rfl
+    rw [hsign]
+    simp only []
+    rw [k1, k2, x1, x2, k3, k4, k5, x3, x4]
+    exact hrt
 
 end Conv
